@@ -33,9 +33,12 @@ type c16Job struct {
 	Ident  string   `json:"ident"`  // identity-column variant of integration 1: "", all, prefix:k, only:f, renamed:f
 	Pre    string   `json:"pre"`    // "", P1 (table with the user columns only), P2 (table migrated for an older, smaller declaration)
 	TwoSrc bool     `json:"twosrc"`
-	Neg    string   `json:"neg"`   // negative case: input:<col> | field:<col> | notify
-	Word   string   `json:"word"`  // reserved word
-	Where  string   `json:"where"` // column | table | unique | index
+	Neg    string   `json:"neg"` // negative case: input:<col> | field:<col> | notify
+	// Namesake: a relation with the same name as integration 1's table exists in ANOTHER schema and has every
+	// column: "reporting" (reporting.<table>) | "shovel" (the table is named task_updates like shovel's own)
+	Namesake string `json:"namesake,omitempty"`
+	Word     string `json:"word"`  // reserved word
+	Where    string `json:"where"` // column | table | unique | index
 }
 
 func init() {
@@ -206,6 +209,13 @@ func c16Jobs(thorough bool) []c16Job {
 			jobs = append(jobs, c16Job{Kind: "preexist", Shapes: tp, Tables: []int{0, 0}, Route: "migrate", Pre: pre})
 		}
 	}
+	for _, s := range c16PreShapes {
+		for _, pre := range []string{"P1", "P2"} {
+			for _, ns := range []string{"reporting", "shovel"} {
+				jobs = append(jobs, c16Job{Kind: "preexist", Shapes: []string{s}, Tables: []int{0}, Route: "migrate", Pre: pre, Namesake: ns})
+			}
+		}
+	}
 	// D. two sources (thorough: also the triples)
 	maxTwo := 2
 	if thorough {
@@ -237,6 +247,10 @@ func c16Jobs(thorough bool) []c16Job {
 		}
 		for _, f := range d.Fields {
 			jobs = append(jobs, c16Job{Kind: "negative", Shapes: []string{s}, Tables: []int{0}, Neg: "field:" + f.Column})
+		}
+		// an identity field listed by the user under another column name that table.columns lacks
+		for _, f := range c16Identity(s) {
+			jobs = append(jobs, c16Job{Kind: "negative", Shapes: []string{s}, Tables: []int{0}, Neg: "idfield:" + f})
 		}
 		jobs = append(jobs, c16Job{Kind: "negative", Shapes: []string{s}, Tables: []int{0}, Neg: "notify"})
 		// notification lists of length 1..4, the entry without table column at every position
@@ -307,8 +321,15 @@ func c16Build(j c16Job) (*c16Built, error) {
 		iv := ""
 		if i == 0 {
 			iv = j.Ident
+			if strings.HasPrefix(j.Neg, "idfield:") {
+				iv = "renamed:" + strings.TrimPrefix(j.Neg, "idfield:")
+			}
 		}
-		d := c16DeclWithIdent(s, fmt.Sprintf("ig%d", i+1), fmt.Sprintf("t%d", j.Tables[i]), refs, iv)
+		tname := fmt.Sprintf("t%d", j.Tables[i])
+		if j.Namesake == "shovel" && j.Tables[i] == j.Tables[0] {
+			tname = "task_updates"
+		}
+		d := c16DeclWithIdent(s, fmt.Sprintf("ig%d", i+1), tname, refs, iv)
 		if j.Kind == "reserved" && i == 0 {
 			switch j.Where {
 			case "table":
@@ -380,6 +401,8 @@ func c16Build(j c16Job) (*c16Built, error) {
 			drop = strings.TrimPrefix(j.Neg, "input:")
 		case strings.HasPrefix(j.Neg, "field:") && i == 0:
 			drop = strings.TrimPrefix(j.Neg, "field:")
+		case strings.HasPrefix(j.Neg, "idfield:") && i == 0:
+			drop = "my_" + strings.TrimPrefix(j.Neg, "idfield:")
 		case strings.HasPrefix(j.Neg, "xfield:") && i == 0:
 			drop = strings.TrimPrefix(j.Neg, "xfield:")
 		}
@@ -448,6 +471,16 @@ func c16Schema(j c16Job, b *c16Built, conf config.Root, route string) (pg *simpg
 	defer pool.Close()
 	if _, err := pool.Exec(ctx, shovel.Schema); err != nil {
 		return pg, nil, "schema: " + err.Error()
+	}
+	if j.Namesake == "reporting" {
+		var defs []string
+		for _, c := range conf.Integrations[0].Table.Columns {
+			defs = append(defs, `"`+c.Name+`" `+c.Type)
+		}
+		q := fmt.Sprintf("create schema if not exists reporting; create table reporting.%s(%s)", b.decls[0].Table, strings.Join(defs, ", "))
+		if _, err := pool.Exec(ctx, q); err != nil {
+			return pg, nil, "namesake table: " + err.Error()
+		}
 	}
 	switch j.Pre {
 	case "P1": // the user created the table with the columns he declared; nothing else
